@@ -40,4 +40,10 @@ def run(tier):
     cr.bounded_check(run_contract_enum, "inline-value-box", c13.inline_value_c, vargs,
                      f"{len(vargs)} usage entries (constant / arithmetic / no producer / unknown reference x materialised or not x literal values): an operand becomes an integer only for an "
                      "unmaterialised constant, and then its literal (contract evaluated on the real SignalAnalyzer.inline_value / can_inline_constant)")
+    from contracts import cparse
+    pargs = cparse.parse_arg_sets()
+    cr.bounded_check(run_contract_enum, "documented-precedence-box", cparse.parse_c, pargs,
+                     f"{len(pargs)} expression texts (every ordered pair of binary operators as `a OP1 b OP2 c`, unary operators on either side, projection and output specifier next to "
+                     "every operator): the real parser's tree is the one the documented precedence / associativity table prescribes — S3 and the e2e judge take their trees from that "
+                     "parser, so this is the only place a precedence fault can show (contract evaluated on the real DSLParser.parse)")
     return cr.finish()
